@@ -122,6 +122,12 @@ CHECKS['C05'] = ('extrapolate',
   'Trusts: TLC; the independent fixed-column reader and the files written by the harness; the species\' exchange map as the reference for positions (the property\'s own wording; the map itself is C01-C04); equal residue counts of reference and target; the shipped box uses a 3-step-factor alignment.', 'DESIGN 3 C05')
 ENGINES['extrapolate'] = ('harness/drivers/extrapolate.py', 'Extrapolate.tla + MC_Extrapolate.tla + Trace_Extrapolate.tla')
 
+CHECKS['C20'] = ('cli',
+  'Cli.tla: Abs = which species are discovered (all three files among the candidates, in the system, not explicit) and mapped (explicit + discovered - excluded); Alg = the three passes of sort_molecules over Python sets with ANY pending file picked next, so TLC explores every iteration order (every string-hash seed and listing order) and proves OrderIndependent and NeverReAddsExplicit for every candidate list of the bounds; each candidate list is realised as files and run through the real sort_molecules (shuffled listing orders in-process, several PYTHONHASHSEED values in sub-processes) and compared with the specification; random four-species directories run through main() in sub-processes are validated by TLC against Trace_Cli.tla, explicit-triple runs compared byte for byte with the library workflow',
+  'Exhaustive: every subset of the six role files of two species + distractors (topology of a species not in the system, a clone with the same residue signature but other atom names, start-resolution coordinates, the system file itself, a file without parser), every explicit and excluded subset: 2 048 cases (thorough: every distractor subset), all iteration orders in the model; on the implementation each case runs under 2 shuffled listing orders in-process and (quick: a third of the cases) under 4 (12) hash seeds in sub-processes, explicit species given as copies under other paths or under the very same paths. 40 (240) main() runs on a four-species system (incl. a one-bead species), half with --auto (random candidate subsets, --exclude hitting a discovered species), requested / default output path, three scales, random hash seed: output must exist at the expected path and contain exactly the expected species; explicit-only runs must equal the library workflow (Manager.from_files, ends, align, maps, extrapolate) byte for byte for the same numpy seed.',
+  'Trusts: TLC; the role decoding of the paths the harness created; at most one file per (species, role) among the candidates (two candidates for one role make the choice order dependent by design: warning in the code); alignment step factor lowered to 2 in both workflows.', 'DESIGN 3 C20')
+ENGINES['cli'] = ('harness/drivers/cli.py', 'Cli.tla + MC_Cli.tla + Trace_Cli.tla; sub-process runner harness/drivers/cli_runner.py for PYTHONHASHSEED variation')
+
 PENDING_REASON = 'check not built yet in this round (build in progress; see DESIGN.md Appendix B)'
 
 
